@@ -28,6 +28,46 @@ def decoded(proj, clsname, periodic=True, neq=1):
     return D, ci, num, L[0], R[0]
 
 
+def each_variable(check, proj, clsname):
+    """RECON-EACH-VAR: with several variables every variable gets ITS OWN face states: the states of variable k are built from
+    the data of variable k only, in arrays of their own (`[np.zeros(n)] * neq` is neq references to ONE array: every variable
+    writes into it and all of them end up with the last one's states -- invisible for scalar models)"""
+    D = Disc1D(proj, neq=2, periodic=True)
+    ci, num = D.recon(clsname, limiter=phi_axioms(D.alg))
+    plan = D.stage_plan(ci)
+    for st in plan[:plan.index("interp_face")] if "interp_face" in plan else []:
+        if st in ("calc_grad", "calc_bc_grad"):
+            D.fvm(st)
+    L, R = D.interp_face(ci, num)
+    f = proj.resolve(ci, "interp_face")
+    bad = None
+    for side, arrs in (("L", L), ("R", R)):
+        if not (isinstance(arrs, list) and len(arrs) == 2 and all(isinstance(a, SArr) for a in arrs)):
+            raise AnalysisError("%s.interp_face does not return one face array per variable" % ci.qualname)
+        if arrs[0] is arrs[1]:
+            bad = "the %s face states of the two variables are ONE array object (allocated once and referenced neq times: `[array] * neq`)" % side
+            break
+        for k, a in enumerate(arrs):
+            seen = set()
+
+            def rec(name, kind, idx):
+                if name.startswith("d") and name[1:].isdigit():
+                    seen.add(name)
+                return None
+            for seg in a.segs:
+                D.subst_names(seg[2], rec)
+            other = seen - {"d%d" % k}
+            if other:
+                bad = "the %s face states of variable %d are built from the data of variable %s" % (side, k, ", ".join(sorted(x[1:] for x in other)))
+                break
+        if bad:
+            break
+    if bad:
+        check.violation("RECON-EACH-VAR", ci.qualname, bad + ": with several variables (Euler, shallow water) every variable carries another one's states; scalar models are unaffected", f.loc(), key="shared-face-array")
+    else:
+        check.ok("RECON-EACH-VAR", ci.qualname, "with two variables each gets face arrays of its own, built from its own data only", f.loc())
+
+
 def linear_data(D, val, alpha, beta, xc_of_xf):
     """substitute d[j] = alpha + beta*xc[j], then xc[j] = decoded centre formula"""
     A = D.alg
@@ -271,6 +311,8 @@ def _body_paths(check):
             continue       # first order by definition: E1-ADJ is its clause
         check.guarded("LIN-EXACT", "xnum." + c, lambda: exactness(check, proj, c))
     check.guarded("MUSCL-ARGS", "xnum.muscl", lambda: muscl_args(check, proj))
+    for c in classes:
+        check.guarded("RECON-EACH-VAR", "xnum." + c, lambda: each_variable(check, proj, c))
     check.guarded("DTYPE-FOLLOW", "xnum", lambda: face_buffer_dtype(check, proj, classes))
     # "... and MUSCL with every limiter": exactness on linear data uses phi(s,s) = s (on the statement's scale
     # range), phi(0,0) = 0 and oddness of each provided limiter -- the same obligations as C12, kept here for
